@@ -577,3 +577,277 @@ Proof.
     + rewrite len_upd_count. assumption.
   - intros id. rewrite Ho2, Hb1. reflexivity.
 Qed.
+
+(** ---- XACK ---- *)
+Lemma remove_entry_inv g L dt id e g' : GInvX g L zero_off dt ->
+  pel_remove_entry g id = (Some e, g') ->
+  GInvX (set_consumers g' (upd_count (p_consumer e) (fun k => sat_sub k 1) (g_consumers g'))) L zero_off (dt - 1) /\
+  pel_find id (g_by_id g) = Some e /\ g_by_id g' = pel_remove id (g_by_id g) /\ g_last g' = g_last g /\ g_total g' = g_total g.
+Proof.
+  intros Hg. unfold pel_remove_entry. destruct (pel_find id (g_by_id g)) as [e0|] eqn:Ef; [|discriminate].
+  intros H; inversion H; subst e0 g'; clear H. split; [|auto].
+  destruct Hg as [H1 H2 H3 H4 H5 H6 H7 H8 H9]. unfold set_pel.
+  split; cbn [set_consumers g_by_id g_by_consumer g_consumers g_total g_ncons g_min g_max]; try reflexivity.
+  - apply PInv_remove; assumption.
+  - apply Forall_pel_remove; assumption.
+  - rewrite keys_upd_count. assumption.
+  - intros c n. rewrite alookup_upd_count, bcg_drop. destruct (beq c (p_consumer e)) eqn:E.
+    + apply beq_eq in E. subst c. destruct (alookup (p_consumer e) (g_consumers g)) as [m|] eqn:Em; [|discriminate].
+      cbn [option_map]. intros Hn; inversion Hn; subst n. specialize (H4 _ _ Em). unfold zero_off in *.
+      assert (Hin : In id (bcg (p_consumer e) (g_by_consumer g))).
+      { apply (pi_owner _ _ H1). unfold owner. rewrite Ef. reflexivity. }
+      rewrite (len_drop_id id _ (pi_nodup _ _ H1 _) Hin).
+      assert (1 <= len (bcg (p_consumer e) (g_by_consumer g))).
+      { destruct (bcg (p_consumer e) (g_by_consumer g)); [destruct Hin|]. rewrite len_cons. pose proof (len_nonneg l). lia. }
+      unfold sat_sub. replace (m <? 1) with false by lia. lia.
+    + apply H4.
+  - intros c id'. rewrite (owner_remove _ _ _ (pi_sorted _ _ H1)), alookup_upd_count.
+    destruct (sid_eqb id' id); [discriminate|]. intros Ho. specialize (H5 c id' Ho).
+    destruct (beq c (p_consumer e)) eqn:E; [|assumption]. apply beq_eq in E. subst c.
+    destruct (alookup (p_consumer e) (g_consumers g)); [discriminate|contradiction].
+  - rewrite len_pel_remove, Ef. lia.
+  - rewrite len_upd_count. assumption.
+Qed.
+
+Lemma ack_one_inv g L n id : GInvX g L zero_off (- n) ->
+  GInvX (snd (g_ack_one (n, g) id)) L zero_off (- fst (g_ack_one (n, g) id)) /\
+  g_last (snd (g_ack_one (n, g) id)) = g_last g /\ g_total (snd (g_ack_one (n, g) id)) = g_total g /\
+  fst (g_ack_one (n, g) id) = n + (match pel_find id (g_by_id g) with Some _ => 1 | None => 0 end) /\
+  g_by_id (snd (g_ack_one (n, g) id)) = pel_remove id (g_by_id g).
+Proof.
+  intros Hg. unfold g_ack_one. destruct (pel_remove_entry g id) as [[e|] g'] eqn:E; cbn [fst snd].
+  - destruct (remove_entry_inv g L (- n) id e g' Hg E) as (H1 & H2 & H3 & H4 & H5).
+    split; [eapply GInvX_ext; [| |exact H1]; [reflexivity|lia]|].
+    cbn [set_consumers g_last g_total g_by_id]. rewrite H2. auto.
+  - unfold pel_remove_entry in E. destruct (pel_find id (g_by_id g)) eqn:Ef; [discriminate|].
+    inversion E; subst g'. split; [assumption|]. split; [reflexivity|]. split; [reflexivity|]. split; [lia|].
+    clear -Ef. induction (g_by_id g) as [|q l IH]; [reflexivity|]. cbn [pel_find pel_remove] in *.
+    destruct (sid_eqb id (p_id q)); [discriminate|]. f_equal. auto.
+Qed.
+
+Lemma ack_fold_inv ids : forall n g L, GInvX g L zero_off (- n) ->
+  GInvX (snd (fold_left g_ack_one ids (n, g))) L zero_off (- fst (fold_left g_ack_one ids (n, g))) /\
+  g_last (snd (fold_left g_ack_one ids (n, g))) = g_last g /\
+  g_total (snd (fold_left g_ack_one ids (n, g))) = g_total g /\
+  n <= fst (fold_left g_ack_one ids (n, g)) /\
+  g_by_id (snd (fold_left g_ack_one ids (n, g))) = fold_left (fun l id => pel_remove id l) ids (g_by_id g) /\
+  fst (fold_left g_ack_one ids (n, g)) = n + (len (g_by_id g) - len (g_by_id (snd (fold_left g_ack_one ids (n, g))))).
+Proof.
+  induction ids as [|id ids IH]; intros n g L Hg; cbn [fold_left].
+  - cbn [fst snd]. split; [assumption|]. split; [reflexivity|]. split; [reflexivity|]. split; [lia|]. split; [reflexivity|lia].
+  - destruct (ack_one_inv g L n id Hg) as (H1 & H2 & H3 & H4 & H5).
+    destruct (g_ack_one (n, g) id) as [n1 g1] eqn:E1. cbn [fst snd] in *.
+    destruct (IH n1 g1 L H1) as (I1 & I2 & I3 & I4 & I5 & I6).
+    split; [assumption|]. split; [congruence|]. split; [congruence|].
+    split; [destruct (pel_find id (g_by_id g)); lia|]. split; [rewrite I5, H5; reflexivity|].
+    rewrite I6, H4, H5. rewrite len_pel_remove. destruct (pel_find id (g_by_id g)); lia.
+Qed.
+
+Theorem acknowledge_inv g ids : GInv g ->
+  GInv (snd (g_acknowledge g ids)) /\ g_last (snd (g_acknowledge g ids)) = g_last g /\
+  g_by_id (snd (g_acknowledge g ids)) = fold_left (fun l id => pel_remove id l) ids (g_by_id g) /\
+  fst (g_acknowledge g ids) = len (g_by_id g) - len (g_by_id (snd (g_acknowledge g ids))).
+Proof.
+  intros Hg. unfold g_acknowledge.
+  destruct (ack_fold_inv ids 0 g (g_last g) Hg) as (H1 & H2 & H3 & H4 & H5 & H6).
+  destruct (fold_left g_ack_one ids (0, g)) as [n g'] eqn:E. cbn [fst snd] in *.
+  destruct (0 <? n) eqn:En; cbn [snd fst].
+  - apply Z.ltb_lt in En. cbn [set_total g_last g_by_id]. split; [|split; [assumption|split; [assumption|lia]]].
+    unfold GInv. cbn [set_total g_last]. rewrite H2. destruct H1 as [A1 A2 A3 A4 A5 A6 A7 A8 A9].
+    split; cbn [set_total g_by_id g_by_consumer g_consumers g_total g_ncons g_min g_max]; try assumption.
+    pose proof (len_nonneg (g_by_id g')). unfold sat_sub. replace (g_total g' <? n) with false by lia. lia.
+  - apply Z.ltb_ge in En. assert (Hn0 : n = 0) by lia. split; [|split; [assumption|split; [assumption|lia]]].
+    unfold GInv. rewrite H2. eapply GInvX_ext; [reflexivity| |exact H1]. lia.
+Qed.
+
+(** ---- XCLAIM ---- *)
+Lemma claim_one_inv now c min_idle force cl g L id : GInvX g L zero_off 0 ->
+  alookup c (g_consumers g) <> None ->
+  let r := g_claim_one now c min_idle force (cl, g) id in
+  GInvX (snd r) L zero_off 0 /\ alookup c (g_consumers (snd r)) <> None /\ g_last (snd r) = g_last g /\
+  map p_id (g_by_id (snd r)) = map p_id (g_by_id g).
+Proof.
+  intros Hg Hc. cbn zeta. unfold g_claim_one. destruct (pel_find id (g_by_id g)) as [e|] eqn:Ef; [|cbn [snd]; auto].
+  destruct (negb force && (Z.max 0 (now - p_time e) <? min_idle)); [cbn [snd]; auto|]. cbn [snd].
+  destruct (pel_find_In _ _ _ Ef) as [Hin Hid]. subst id.
+  destruct Hg as [H1 H2 H3 H4 H5 H6 H7 H8 H9]. unfold pel_transfer.
+  cbn [set_consumers g_by_id g_by_consumer g_consumers g_total g_ncons g_min g_max g_last].
+  set (e' := {| p_id := p_id e; p_consumer := c; p_time := now; p_count := p_count e + 1 |}).
+  assert (Hold : alookup (p_consumer e) (g_consumers g) <> None).
+  { apply (H5 _ (p_id e)). unfold owner. rewrite Ef. reflexivity. }
+  assert (Hids : map p_id (pel_insert e' (g_by_id g)) = map p_id (g_by_id g)).
+  { apply (ids_insert_present e' _ e (pi_sorted _ _ H1)). exact Ef. }
+  split; [|split; [|split; [reflexivity|exact Hids]]].
+  - split; cbn [g_by_id g_by_consumer g_consumers g_total g_ncons g_min g_max].
+    + apply (PInv_transfer _ _ e e' H1 Ef eq_refl).
+    + apply Forall_pel_insert; [assumption|]. cbn [e' p_id]. rewrite Forall_forall in H2. apply (H2 e Hin).
+    + rewrite !keys_upd_count. assumption.
+    + intros c' n. rewrite !alookup_upd_count, bcg_push, !bcg_drop. unfold zero_off in *.
+      assert (Hin' : In (p_id e) (bcg (p_consumer e) (g_by_consumer g))).
+      { apply (pi_owner _ _ H1). unfold owner. rewrite Ef. reflexivity. }
+      pose proof (len_drop_id (p_id e) _ (pi_nodup _ _ H1 _) Hin') as Hld.
+      assert (Hge : 1 <= len (bcg (p_consumer e) (g_by_consumer g))).
+      { destruct (bcg (p_consumer e) (g_by_consumer g)); [destruct Hin'|]. rewrite len_cons. pose proof (len_nonneg l). lia. }
+      destruct (alookup (p_consumer e) (g_consumers g)) as [mo|] eqn:Emo; [|contradiction].
+      pose proof (H4 _ _ Emo) as Hmo.
+      destruct (beq c' c) eqn:E1.
+      * apply beq_eq in E1. subst c'. rewrite len_app. change (len [p_id e]) with 1.
+        destruct (beq c (p_consumer e)) eqn:E2.
+        -- cbn [option_map]. intros Hn; inversion Hn; subst n.
+           rewrite Hld. unfold sat_sub. replace (mo <? 1) with false by lia. lia.
+        -- destruct (alookup c (g_consumers g)) as [mc|] eqn:Emc; [|contradiction]. cbn [option_map].
+           intros Hn; inversion Hn; subst n. pose proof (H4 _ _ Emc). lia.
+      * destruct (beq c' (p_consumer e)) eqn:E2.
+        -- cbn [option_map]. intros Hn; inversion Hn; subst n.
+           rewrite Hld. unfold sat_sub. replace (mo <? 1) with false by lia. lia.
+        -- apply H4.
+    + intros c' id'. rewrite owner_insert, !alookup_upd_count. cbn [e' p_id p_consumer].
+      destruct (sid_eqb id' (p_id e)).
+      * intros Heq; inversion Heq; subst c'. rewrite beq_refl.
+        destruct (beq c (p_consumer e)) eqn:E2.
+        -- apply beq_eq in E2. subst c. destruct (alookup (p_consumer e) (g_consumers g)); [discriminate|contradiction].
+        -- destruct (alookup c (g_consumers g)); [discriminate|contradiction].
+      * intros Ho. specialize (H5 c' id' Ho). destruct (beq c' c) eqn:E1.
+        -- apply beq_eq in E1. subst c'. destruct (beq c (p_consumer e)).
+           ++ destruct (alookup (p_consumer e) (g_consumers g)); [discriminate|contradiction].
+           ++ destruct (alookup c (g_consumers g)); [discriminate|contradiction].
+        -- destruct (beq c' (p_consumer e)) eqn:E2; [|assumption]. apply beq_eq in E2. subst c'.
+           destruct (alookup (p_consumer e) (g_consumers g)); [discriminate|contradiction].
+    + rewrite (len_pel_insert _ _ (pi_sorted _ _ H1)). cbn [e' p_id]. rewrite Ef. lia.
+    + rewrite !len_upd_count. assumption.
+    + rewrite H8, !pel_min_ids, Hids. reflexivity.
+    + rewrite H9, !pel_max_ids, Hids. reflexivity.
+  - rewrite !alookup_upd_count, beq_refl. destruct (beq c (p_consumer e)) eqn:E2.
+    + apply beq_eq in E2. subst c. destruct (alookup (p_consumer e) (g_consumers g)); [discriminate|contradiction].
+    + destruct (alookup c (g_consumers g)); [discriminate|contradiction].
+Qed.
+
+Lemma claim_fold_inv now c min_idle force ids : forall cl g L, GInvX g L zero_off 0 ->
+  alookup c (g_consumers g) <> None ->
+  let r := fold_left (g_claim_one now c min_idle force) ids (cl, g) in
+  GInvX (snd r) L zero_off 0 /\ g_last (snd r) = g_last g /\ map p_id (g_by_id (snd r)) = map p_id (g_by_id g).
+Proof.
+  induction ids as [|id ids IH]; intros cl g L Hg Hc; cbn [fold_left]; cbn zeta.
+  - cbn [snd]. auto.
+  - destruct (claim_one_inv now c min_idle force cl g L id Hg Hc) as (H1 & H2 & H3 & H4). cbn zeta in *.
+    destruct (g_claim_one now c min_idle force (cl, g) id) as [cl1 g1]. cbn [snd] in *.
+    destruct (IH cl1 g1 L H1 H2) as (I1 & I2 & I3). cbn zeta in *.
+    split; [assumption|]. split; congruence.
+Qed.
+
+Theorem claim_inv now g c min_idle ids force : GInv g ->
+  GInv (snd (g_claim now g c min_idle ids force)) /\
+  g_last (snd (g_claim now g c min_idle ids force)) = g_last g /\
+  map p_id (g_by_id (snd (g_claim now g c min_idle ids force))) = map p_id (g_by_id g).
+Proof.
+  intros Hg. unfold g_claim.
+  destruct (create_consumer_inv g (g_last g) zero_off 0 c Hg eq_refl) as (Hg1 & Hc1 & Hb1 & _ & Hl1 & _).
+  destruct (claim_fold_inv now c min_idle force ids [] _ _ Hg1 Hc1) as (H1 & H2 & H3). cbn zeta in *.
+  split; [|split; [congruence|congruence]]. unfold GInv. rewrite H2, Hl1. exact H1.
+Qed.
+
+(** ---- XGROUP DELCONSUMER ---- *)
+Lemma owner_fold_remove ids : forall l, psorted l ->
+  forall id, owner (fold_left (fun l id => pel_remove id l) ids l) id = if sid_mem id ids then None else owner l id.
+Proof.
+  induction ids as [|i ids IH]; intros l Hs id; cbn [fold_left sid_mem]; [reflexivity|].
+  rewrite (IH _ (psorted_remove i l Hs)), (owner_remove _ _ _ Hs).
+  destruct (sid_eqb id i); cbn [orb]; [destruct (sid_mem id ids); reflexivity|reflexivity].
+Qed.
+Lemma psorted_fold_remove ids : forall l, psorted l -> psorted (fold_left (fun l id => pel_remove id l) ids l).
+Proof. induction ids as [|i ids IH]; intros l Hs; cbn [fold_left]; [assumption|]. apply IH. apply psorted_remove; assumption. Qed.
+Lemma Forall_fold_remove (P : pending -> Prop) ids : forall l, Forall P l -> Forall P (fold_left (fun l id => pel_remove id l) ids l).
+Proof. induction ids as [|i ids IH]; intros l H; cbn [fold_left]; [assumption|]. apply IH. apply Forall_pel_remove; assumption. Qed.
+Lemma sid_mem_In id ids : sid_mem id ids = true <-> In id ids.
+Proof.
+  induction ids as [|i ids IH]; cbn [sid_mem In]; [split; [discriminate|tauto]|].
+  rewrite Bool.orb_true_iff, IH, sid_eqb_eq. split; intros [H|H]; auto.
+Qed.
+Lemma len_fold_remove ids : forall l, psorted l -> NoDup ids -> (forall id, In id ids -> pel_find id l <> None) ->
+  len (fold_left (fun l id => pel_remove id l) ids l) = len l - len ids.
+Proof.
+  induction ids as [|i ids IH]; intros l Hs Hnd Hin; cbn [fold_left]; [rewrite len_nil; lia|].
+  inversion Hnd as [|? ? Hni Hnd']; subst. rewrite IH; [| apply psorted_remove; assumption|assumption|].
+  - rewrite len_pel_remove, len_cons. specialize (Hin i (or_introl eq_refl)). destruct (pel_find i l); [lia|contradiction].
+  - intros id Hid. rewrite (pel_find_remove _ _ _ Hs). destruct (sid_eqb id i) eqn:E.
+    + apply sid_eqb_eq in E. subst. contradiction.
+    + apply Hin. right; assumption.
+Qed.
+
+Theorem delete_consumer_inv g c : GInv g ->
+  GInv (snd (g_delete_consumer g c)) /\ g_last (snd (g_delete_consumer g c)) = g_last g /\
+  alookup c (g_consumers (snd (g_delete_consumer g c))) = None /\
+  fst (g_delete_consumer g c) = len (bcg c (g_by_consumer g)) /\
+  (forall id, owner (g_by_id (snd (g_delete_consumer g c))) id =
+              match owner (g_by_id g) id with Some c' => if beq c' c then None else Some c' | None => None end).
+Proof.
+  intros Hg. unfold g_delete_consumer. destruct (amem c (g_consumers g)) eqn:Em; cbn [fst snd].
+  2:{ apply amem_alookup in Em. split; [assumption|]. split; [reflexivity|]. split; [assumption|].
+      split; [rewrite (no_owner_no_ids _ _ _ _ c Hg Em); reflexivity|].
+      intros id. destruct (owner (g_by_id g) id) as [c'|] eqn:Eo; [|reflexivity].
+      destruct (beq c' c) eqn:E; [|reflexivity]. apply beq_eq in E. subst c'.
+      apply (gi_owners _ _ _ _ Hg) in Eo. contradiction. }
+  assert (Hc : alookup c (g_consumers g) <> None) by (unfold amem in Em; destruct (alookup c (g_consumers g)); congruence).
+  destruct Hg as [H1 H2 H3 H4 H5 H6 H7 H8 H9]. unfold zero_off in *.
+  destruct (alookup c (g_by_consumer g)) as [ids|] eqn:Eids; cbn [fst snd].
+  - assert (Hbcg : bcg c (g_by_consumer g) = ids) by (unfold bcg; rewrite Eids; reflexivity).
+    pose proof (pi_nodup _ _ H1 c) as Hnd. rewrite Hbcg in Hnd.
+    assert (Hown : forall id, In id ids <-> owner (g_by_id g) id = Some c).
+    { intros id. rewrite <- Hbcg. apply (pi_owner _ _ H1). }
+    set (byid' := fold_left (fun l id => pel_remove id l) ids (g_by_id g)).
+    assert (Ho' : forall id, owner byid' id = match owner (g_by_id g) id with Some c' => if beq c' c then None else Some c' | None => None end).
+    { intros id. subst byid'. rewrite (owner_fold_remove ids _ (pi_sorted _ _ H1)).
+      destruct (sid_mem id ids) eqn:Es.
+      - apply sid_mem_In in Es. apply Hown in Es. rewrite Es, beq_refl. reflexivity.
+      - destruct (owner (g_by_id g) id) as [c'|] eqn:Eo; [|reflexivity]. destruct (beq c' c) eqn:E; [|reflexivity].
+        apply beq_eq in E. subst c'. apply Hown in Eo. apply sid_mem_In in Eo. congruence. }
+    assert (Hlen : len byid' = len (g_by_id g) - len ids).
+    { subst byid'. apply len_fold_remove; [apply (pi_sorted _ _ H1)|assumption|].
+      intros id Hid. apply Hown in Hid. unfold owner in Hid. destruct (pel_find id (g_by_id g)); [discriminate|discriminate]. }
+    unfold set_pel. cbn [g_last g_by_id g_by_consumer g_consumers g_total g_ncons g_min g_max].
+    split; [|split; [reflexivity|split; [rewrite alookup_aremove, beq_refl; reflexivity|split; [congruence|exact Ho']]]].
+    split; cbn [g_last g_by_id g_by_consumer g_consumers g_total g_ncons g_min g_max]; try reflexivity.
+    + split.
+      * apply psorted_fold_remove. apply (pi_sorted _ _ H1).
+      * intros c'. rewrite bcg_aremove. destruct (beq c' c); [constructor|apply (pi_nodup _ _ H1)].
+      * intros c' id. rewrite bcg_aremove, Ho'. destruct (beq c' c) eqn:E.
+        -- apply beq_eq in E. subst c'. split; [intros []|]. destruct (owner (g_by_id g) id) as [c'|]; [|discriminate].
+           destruct (beq c' c) eqn:E2; [discriminate|]. intros Heq; inversion Heq; subst. rewrite beq_refl in E2. discriminate.
+        -- rewrite (pi_owner _ _ H1). destruct (owner (g_by_id g) id) as [c''|] eqn:Eo; [|split; discriminate].
+           destruct (beq c'' c) eqn:E2.
+           ++ apply beq_eq in E2. subst c''. split; [|discriminate]. intros Heq; inversion Heq; subst. rewrite beq_refl in E. discriminate.
+           ++ reflexivity.
+      * apply bc_nonempty_aremove. apply (pi_nonempty _ _ H1).
+    + apply Forall_fold_remove. assumption.
+    + apply NoDup_keys_aremove. assumption.
+    + intros c' n. rewrite alookup_aremove, bcg_aremove. destruct (beq c' c); [discriminate|apply H4].
+    + intros c' id. rewrite Ho', alookup_aremove. destruct (owner (g_by_id g) id) as [c''|] eqn:Eo; [|discriminate].
+      destruct (beq c'' c) eqn:E2; [discriminate|]. intros Heq; inversion Heq; subst c''. rewrite E2. eapply H5; eassumption.
+    + pose proof (len_nonneg byid'). unfold sat_sub. replace (g_total g <? len ids) with false by lia. lia.
+    + rewrite (len_aremove_nodup c _ H3 Hc). pose proof (len_nonneg (aremove c (g_consumers g))).
+      rewrite (len_aremove_nodup c _ H3 Hc) in H. unfold sat_sub. replace (g_ncons g <? 1) with false by lia. lia.
+  - assert (Hbcg : bcg c (g_by_consumer g) = []) by (unfold bcg; rewrite Eids; reflexivity).
+    cbn [g_last g_by_id g_by_consumer g_consumers g_total g_ncons g_min g_max].
+    split; [|split; [reflexivity|split; [rewrite alookup_aremove, beq_refl; reflexivity|split; [rewrite Hbcg; reflexivity|]]]].
+    + split; cbn [g_last g_by_id g_by_consumer g_consumers g_total g_ncons g_min g_max]; try assumption.
+      * apply NoDup_keys_aremove. assumption.
+      * intros c' n. rewrite alookup_aremove. destruct (beq c' c); [discriminate|apply H4].
+      * intros c' id Ho. rewrite alookup_aremove. destruct (beq c' c) eqn:E; [|eapply H5; eassumption].
+        apply beq_eq in E. subst c'. apply (pi_owner _ _ H1) in Ho. rewrite Hbcg in Ho. destruct Ho.
+      * pose proof (len_nonneg (g_by_id g)). unfold sat_sub. replace (g_total g <? 0) with false by lia. lia.
+      * rewrite (len_aremove_nodup c _ H3 Hc). pose proof (len_nonneg (aremove c (g_consumers g))).
+        rewrite (len_aremove_nodup c _ H3 Hc) in H. unfold sat_sub. replace (g_ncons g <? 1) with false by lia. lia.
+    + intros id. destruct (owner (g_by_id g) id) as [c'|] eqn:Eo; [|reflexivity]. destruct (beq c' c) eqn:E; [|reflexivity].
+      apply beq_eq in E. subst c'. apply (pi_owner _ _ H1) in Eo. rewrite Hbcg in Eo. destruct Eo.
+Qed.
+
+(** ---- XGROUP SETID keeps the invariant exactly when no pending ID is above the new cursor ---- *)
+Theorem set_last_inv g i : GInv g -> Forall (fun p => sid_le (p_id p) i) (g_by_id g) -> GInv (set_last g i).
+Proof.
+  intros [H1 H2 H3 H4 H5 H6 H7 H8 H9] Hall. split; cbn [set_last g_last g_by_id g_by_consumer g_consumers g_total g_ncons g_min g_max]; assumption.
+Qed.
+Theorem create_consumer_ginv g c : GInv g -> GInv (snd (g_create_consumer g c)).
+Proof.
+  intros Hg. destruct (create_consumer_inv g (g_last g) zero_off 0 c Hg eq_refl) as (H1 & _ & _ & _ & Hl & _).
+  unfold GInv. rewrite Hl. exact H1.
+Qed.
